@@ -255,8 +255,14 @@ class Check:
         self.obligations.append(("no sorry/admit/axiom/native_decide/bv_decide/implemented_by/unsafe in lean/", not hits, hits[:5]))
         if hits:
             self.broken.append({"what": "forbidden token in Lean sources", "detail": hits[:5]})
+        # independent re-check of the compiled .olean files of this property's modules
+        mods = [module] if isinstance(module, str) else list(module)
+        rc = sh("lake env leanchecker " + " ".join(mods) + " 2>&1", cwd=LEAN_DIR, timeout=3600)
+        self.obligations.append(("leanchecker re-checks " + " ".join(mods), rc.returncode == 0, (rc.stdout + rc.stderr)[-400:] if rc.returncode else ""))
+        if rc.returncode != 0:
+            self.broken.append({"what": "leanchecker " + " ".join(mods), "detail": (rc.stdout + rc.stderr)[-1500:]})
         res, out = LeanBuild.audit(module, theorems)
-        allok = not hits
+        allok = not hits and rc.returncode == 0
         for t, (o, axs) in res.items():
             self.obligations.append((t, o, axs))
             if not o:
